@@ -280,6 +280,11 @@ fn vmess_limit_case(s: &mut Session, rng: &mut Rng, cipher: &str, thorough: bool
 /// targets at once — every datagram reaches the target it is addressed to, exactly once and whole; every answer
 /// returns to the application that asked, labelled with the answering target; nobody gets anything else
 fn e2e_cases(s: &mut Session, tier: &str, rng: &mut Rng) {
+    e2e_cases_for(s, tier, rng, None)
+}
+
+/// `only`: one (protocol, transport) pair instead of all of them
+pub fn e2e_cases_for(s: &mut Session, tier: &str, rng: &mut Rng, only: Option<(&str, &str)>) {
     use crate::e2e_gen::*;
     let thorough = tier == "thorough";
     for mut base in protocol_ciphers(rng) {
@@ -293,6 +298,9 @@ fn e2e_cases(s: &mut Session, tier: &str, rng: &mut Rng) {
         // (each (protocol, transport) pair has its own arm in the client's `transfer_udp`: all of them, in both tiers)
         let transports = all;
         for t in transports {
+            if only.is_some_and(|(p, tr)| p != base.protocol || tr != t) {
+                continue;
+            }
             let cfg = base.with(t);
             s.begin_case(&format!("e2e-udp:{}", cfg.label()));
             let Some(w) = cfg.start(s, false, 4) else {
